@@ -14,6 +14,32 @@
    distId = None), false = the pinned tree (-if not flavor-, -distId == None-). *)
 From Eupsv Require Import Base.Base.
 
+(* string constants, computed so that the extracted code does not mention Coq's string type *)
+Definition k_sp_version : str := Eval compute in lit " Version ".
+Definition k_eups_distribution_manife : str := Eval compute in lit "EUPS distribution manifest for ".
+Definition k_sp_lpar : str := Eval compute in lit " (".
+Definition k_eups_distribution : str := Eval compute in lit "EUPS distribution ".
+Definition k_version_list : str := Eval compute in lit " version list".
+Definition k_cap_none : str := Eval compute in lit "None".
+Definition k_1_0 : str := Eval compute in lit "1.0".
+Definition k_low_none : str := Eval compute in lit "none".
+Definition k_unknown_product : str := Eval compute in lit "UNKNOWN_PRODUCT".
+Definition k_generic : str := Eval compute in lit "generic".
+Definition k_rpar_version : str := Eval compute in lit "). Version ".
+Definition k_hashs : str := Eval compute in lit "#".
+Definition k_creator : str := Eval compute in lit "# Creator:      ".
+Definition k_time : str := Eval compute in lit "# Time:         ".
+Definition k_eups_version : str := Eval compute in lit "# Eups version: ".
+Definition k_pkg_flavor_version_table : str := Eval compute in lit "# pkg           flavor       version    tablefile                 installation_directory         installID".
+Definition k_search : str := Eval compute in lit "search".
+Definition k_optional : str := Eval compute in lit "OPTIONAL".
+Definition k_true : str := Eval compute in lit "TRUE".
+Definition k_false : str := Eval compute in lit "FALSE".
+Definition k_any : str := Eval compute in lit "any".
+Definition k_version_list_version : str := Eval compute in lit " version list. Version ".
+Definition k_product_flavor_version : str := Eval compute in lit "#product             flavor     version".
+Definition k_noreinstall : str := Eval compute in lit "noreinstall".
+
 (* ------------------------------------------------------------------ characters *)
 
 (* python str.isspace and the regex class for white space, on code points 0..255 *)
@@ -100,7 +126,7 @@ Definition all_space (x : str) : bool := forallb is_pyspace x.
 
 (* the tail shared by both headers: literal  Version , a non-space run, then only white space *)
 Definition parse_version_tail (x : str) : option str :=
-  match strip_prefix (lit " Version ") x with
+  match strip_prefix (k_sp_version) x with
   | None => None
   | Some r =>
       let (g, r') := spanw r in
@@ -116,14 +142,14 @@ Definition parse_version_tail (x : str) : option str :=
    last character (the dot then eats the white space after the run) and then the run minus
    its last two characters *)
 Definition parse_mheader (x : str) : option (str * str * str) :=
-  match strip_prefix (lit "EUPS distribution manifest for ") x with
+  match strip_prefix (k_eups_distribution_manife) x with
   | None => None
   | Some r0 =>
       let (g1, r1) := spanw r0 in
       match g1 with
       | [] => None
       | _ =>
-          match strip_prefix (lit " (") r1 with
+          match strip_prefix (k_sp_lpar) r1 with
           | None => None
           | Some r2 =>
               let (R, r3) := spanw r2 in
@@ -156,7 +182,7 @@ Definition parse_mheader (x : str) : option (str * str * str) :=
 (* re.search(^EUPS distribution TAG version list. Version (\S+)\s*$); the tag is pasted into
    the pattern unescaped, the model takes it literally (tags are alphanumeric) *)
 Definition parse_tlheader (tag x : str) : option str :=
-  match strip_prefix (lit "EUPS distribution " ++ tag ++ lit " version list") x with
+  match strip_prefix (k_eups_distribution ++ tag ++ k_version_list) x with
   | None => None
   | Some [] => None
   | Some (c :: r) => if ascii_eqb c c_nl then None else parse_version_tail r
@@ -184,13 +210,13 @@ Definition truthy (o : option str) : bool :=
 
 (* percent-s of an optional string *)
 Definition ostr (o : option str) : str :=
-  match o with Some s => s | None => lit "None" end.
+  match o with Some s => s | None => k_cap_none end.
 
 (* Dependency.__init__ *)
 Definition new_dep (fx : bool) (p v : str) (fl tf dir id : option str) (opt rec : bool)
            (extra : list str) : dep :=
   let id' := match id with
-             | Some s => if fx && str_eqb s (lit "None") then None else id
+             | Some s => if fx && str_eqb s (k_cap_none) then None else id
              | None => None
              end in
   mkDep p v fl tf dir id' opt rec extra.
@@ -204,14 +230,14 @@ Record manifest := mkManifest {
 
 Definition empty_manifest : manifest := mkManifest None None [].
 
-Definition fmtversion : str := lit "1.0".
+Definition fmtversion : str := k_1_0.
 
 Definition dep_line (fx : bool) (fa : option str) (efl : str) (d : dep) : str :=
   let fl1 := if fx then (if truthy fa then fa else d_flavor d)
              else (if truthy fa then d_flavor d else fa) in
   let fl2 := if truthy fl1 then fl1 else Some efl in
-  let dir := if truthy (d_dir d) then d_dir d else Some (lit "none") in
-  let tf := if truthy (d_table d) then d_table d else Some (lit "none") in
+  let dir := if truthy (d_dir d) then d_dir d else Some (k_low_none) in
+  let tf := if truthy (d_table d) then d_table d else Some (k_low_none) in
   ljust 15 (d_product d) ++ c_sp ::
   ljust 12 (ostr fl2) ++ c_sp ::
   ljust 10 (d_version d) ++ c_sp ::
@@ -220,15 +246,15 @@ Definition dep_line (fx : bool) (fa : option str) (efl : str) (d : dep) : str :=
   ostr (d_distid d).
 
 Definition mheader (who time ver : str) (m : manifest) : list str :=
-  let p := match mf_product m with Some p => p | None => lit "UNKNOWN_PRODUCT" end in
-  let v := match mf_version m with Some v => v | None => lit "generic" end in
-  [ lit "EUPS distribution manifest for " ++ p ++ lit " (" ++ v ++ lit "). Version " ++ fmtversion;
-    lit "#";
-    lit "# Creator:      " ++ who;
-    lit "# Time:         " ++ time;
-    lit "# Eups version: " ++ ver;
-    lit "#";
-    lit "# pkg           flavor       version    tablefile                 installation_directory         installID";
+  let p := match mf_product m with Some p => p | None => k_unknown_product end in
+  let v := match mf_version m with Some v => v | None => k_generic end in
+  [ k_eups_distribution_manife ++ p ++ k_sp_lpar ++ v ++ k_rpar_version ++ fmtversion;
+    k_hashs;
+    k_creator ++ who;
+    k_time ++ time;
+    k_eups_version ++ ver;
+    k_hashs;
+    k_pkg_flavor_version_table;
     c_hash :: repeat "-"%char 105 ].
 
 (* Manifest.write(filename, noOptional, flavor): the lines printed; efl is eupsenv.flavor,
@@ -246,16 +272,16 @@ Definition parse_dep_line (fx dflt_rec : bool) (line : str) : res dep :=
   | p :: fl :: v :: tf :: dir :: rest =>
       let id := match rest with
                 | [] => None
-                | i :: _ => if str_eqb i (lit "search") then None else Some i
+                | i :: _ => if str_eqb i (k_search) then None else Some i
                 end in
       let opt := match rest with
-                 | _ :: o :: _ => starts_with o (lit "OPTIONAL")
+                 | _ :: o :: _ => starts_with o (k_optional)
                  | _ => false
                  end in
       let rc := match rest with
                 | _ :: _ :: r :: _ =>
-                    if starts_with r (lit "TRUE") then true
-                    else if starts_with r (lit "FALSE") then false else dflt_rec
+                    if starts_with r (k_true) then true
+                    else if starts_with r (k_false) then false else dflt_rec
                 | _ => dflt_rec
                 end in
       Ok (new_dep fx p v (Some fl) (Some tf) (Some dir) id opt rc (skipn 3 rest))
@@ -311,8 +337,8 @@ Record tlist := mkTl {
   tl_flavor : str;
   tl_entries : amap tlinfo }.
 
-Definition s_generic : str := lit "generic".
-Definition s_any : str := lit "any".
+Definition s_generic : str := k_generic.
+Definition s_any : str := k_any.
 
 (* TaggedProductList(tag, defFlavor) *)
 Definition tl_new (tag : str) (defFlavor : option str) : tlist :=
@@ -354,8 +380,8 @@ Definition tl_line (fa : option str) (p : str) (i : tlinfo) : str :=
   end.
 
 Definition tlheader (tag : str) : list str :=
-  [ lit "EUPS distribution " ++ tag ++ lit " version list. Version " ++ fmtversion;
-    lit "#product             flavor     version";
+  [ k_eups_distribution ++ tag ++ k_version_list_version ++ fmtversion;
+    k_product_flavor_version;
     c_hash :: repeat "-"%char 38 ].
 
 Definition tl_write_lines (fa : option str) (t : tlist) : list str :=
@@ -420,7 +446,7 @@ Definition fm_add (fm : fmap) (inP inV outP : str) (outV : option str) (fl : str
 
 Definition is_noreinstall (o : option str) : bool :=
   match o with
-  | Some (c :: w) => str_eqb (lower_str (c :: w)) (lit "noreinstall")
+  | Some (c :: w) => str_eqb (lower_str (c :: w)) (k_noreinstall)
   | _ => false
   end.
 
